@@ -614,7 +614,26 @@ func runC03B(tb report.TB, rep *report.Reporter, c craftCase) {
 		}
 		return opIdsOf(b), nil
 	}
+	clocksBefore := map[string]uint64{}
+	if cl, err := env.repo.AllClocks(); err == nil {
+		for n, x := range cl {
+			clocksBefore[n] = uint64(x.Time())
+		}
+	}
 	got, rerr := read(env.repo, built.bugId)
+	if rerr != nil {
+		// a history that is refused is refused as a whole: the times written in it are not witnessed, the clocks
+		// of the reader stay where they were (otherwise its next commits are stamped with the refused times)
+		if cl, err := env.repo.AllClocks(); err == nil {
+			for n, x := range cl {
+				if v, ok := clocksBefore[n]; (ok && uint64(x.Time()) != v) || (!ok && uint64(x.Time()) > 1) {
+					if rep.Fail(tb, "C03/crafted/refused-history-moved-the-clocks", fmt.Sprintf("defect %q, the read failed (%v), yet clock %s went from %d to %d", c.Defect, rerr, n, v, x.Time()), c) {
+						return
+					}
+				}
+			}
+		}
+	}
 	switch built.verdict {
 	case "refuse":
 		if rerr == nil {
